@@ -223,10 +223,16 @@ class AlternativeSequence(Case):
     props = ("C13",)
     func = VAR + ".alternative_genomic_sequence"
 
-    def __init__(self, two):
-        self.two = two
+    def __init__(self, two, via_from_dict=False):
+        self.two, self.via = two, via_from_dict
         self.name = ("VariantIntervalCollection" if two else "VariantInterval") + ".alternative_genomic_sequence[chunk parent]"
         self.call = "(lambda s: (len(s), s))(x.alternative_genomic_sequence)"
+        if via_from_dict:
+            # the same haplotype rebuilt from its dictionary form on the same parent (the way query results and
+            # liftover_to_parent_or_seq_chunk_parent rebuild collections) must edit the same text
+            self.name = "VariantIntervalCollection.from_dict(to_dict(x), parent).alternative_genomic_sequence[chunk parent]"
+            self.call = ("(lambda s: (len(s), s))(VariantIntervalCollection.from_dict(x.to_dict(), cp)"
+                         ".alternative_genomic_sequence)")
         self.module = "gene.variants"
         self.func = (VCOL if two else VAR) + ".alternative_genomic_sequence"
         self.ensures = {
@@ -253,7 +259,8 @@ class AlternativeSequence(Case):
             v2 = S.new(VAR, vs2, ve2, alt2, "v", parent_or_seq_chunk_parent=cp)
             edits.append((vs2 - cs, ve2 - cs, alt2))
             x = S.new(VCOL, [v1, v2], parent_or_seq_chunk_parent=cp)
-        return NS(x=x, k=k, ref=ref, L=ce - cs, edits=edits, ds=[slen(a) - (e - s) for s, e, a in edits])
+        return NS(x=x, k=k, ref=ref, L=ce - cs, edits=edits, ds=[slen(a) - (e - s) for s, e, a in edits], cp=cp,
+                  VariantIntervalCollection=S.cls(VCOL))
 
     def samples(self, rng):
         cs = rng.randint(0, 5)
@@ -312,6 +319,7 @@ def _edit_model(i, k):
 
 
 CASES = [LiftSingle(), CollectionLiftSingle(), AlternativeSequence(False), AlternativeSequence(True),
+         AlternativeSequence(True, via_from_dict=True),
          LiftCompound(2), LiftCompound(3), LiftCompound(2, through_public=True), LiftCompound(2, overlap=True),
          LiftCompound(2, overlap=True, collection=True), LiftCompound(2, through_public=True, overlap=True)]
 
